@@ -15,7 +15,20 @@ def all_skeleton_queries(tier):
     return out
 
 
-def pick(tier, pred, limit_per_mod):
+def exclude_nonblock_findings(q):
+    # the open findings F6b/F6c (non-blocking BUS send refused) and F7/F7c (non-blocking respondent
+    # send refused) are C09/C07/C15 matters; for the other properties that re-use these skeletons the
+    # defect is excluded by a define and the harness checks that the refused send fails cleanly
+    if q.harness == "c09/bus.c":
+        q.defs = dict(q.defs)
+        q.defs["KF_BUS_NONBLOCK_EAGAIN"] = 1
+    if q.harness == "c07/respond.c":
+        q.defs = dict(q.defs)
+        q.defs["KF_RESP_NONBLOCK_EAGAIN"] = 1
+    return q
+
+
+def pick(tier, pred, limit_per_mod, bus_excl=False):
     seen = {}
     out = []
     names = set()
@@ -29,5 +42,7 @@ def pick(tier, pred, limit_per_mod):
             continue
         names.add(q.name)
         seen[key] = seen.get(key, 0) + 1
+        if bus_excl:
+            exclude_nonblock_findings(q)
         out.append(q)
     return out
